@@ -241,7 +241,7 @@ def sl2_irrep(A, n):
     c = A[..., 1, 0]
     d = A[..., 1, 1]
 
-    im = utils.zeros(A.shape[:-2] +(n, n), like=A)
+    im = utils.zeros(A.shape[:-2] +(n, n), like=A, integer_type=False)
     r = n - 1
     for k in range(n):
         for j in range(n):
